@@ -128,6 +128,30 @@ def other_model(rng):
     return "%08x" % rng.randrange(1 << 32)
 
 
+def alike_positions(rng):
+    """two different (node, position) pairs whose decimal (or hex) digits read the same when written one after the other,
+    e.g. (1, 23) / (12, 3): a key built by gluing the numbers together cannot tell them apart"""
+    fmt = rng.choice(["%d", "%d", "%x"])
+    while True:
+        n1, p1 = rng.randrange(256), rng.randrange(0x10000) if rng.random() < 0.5 else rng.randrange(100)
+        glued = (fmt % n1) + (fmt % p1)
+        cuts = [i for i in range(1, len(glued)) if i != len(fmt % n1)]
+        rng.shuffle(cuts)
+        for i in cuts:
+            a, b = glued[:i], glued[i:]
+            try:
+                n2, p2 = int(a, 16 if "x" in fmt else 10), int(b, 16 if "x" in fmt else 10)
+            except ValueError:
+                continue
+            if n2 < 256 and p2 < 0x10000 and (fmt % n2) + (fmt % p2) == glued and (n2, p2) != (n1, p1):
+                return (n1, p1), (n2, p2)
+
+
+def with_position(sig, node, pos):
+    a, b, c = sig
+    return a, "%04x%02x%s" % (pos, node, b[6:8]), c
+
+
 def rand_sig(rng):
     model = rng.choice(KNOWN_MODELS) if rng.random() < 0.6 else other_model(rng)
     b = bytearray(rng.randrange(256) for _ in range(8))
@@ -215,10 +239,17 @@ def run(spec, ctx):
                 a, b, c = case_style(rng, a), case_style(rng, b), case_style(rng, c)
                 ctx.current = {"words": [a, b, c], "chipdata": spec["cfg"]}
                 ctx.case(a + b + c + spec["cfg"], True, sample={"words": [a, b, c]} if i < 2 else None)
-                try:
-                    p.get_signature(a, b, c)
-                except Exception as e:
-                    ctx.violation("C20/signature-error", "get_signature(%s, %s, %s) [chip data %s] raised %r" % (a, b, c, spec["cfg"], e))
+                calls = [(a, b, c)]
+                if i % 8 == 0:
+                    (n1, p1), (n2, p2) = alike_positions(rng)
+                    calls = [with_position((a, b, c), n1, p1), with_position((a, b, c), n2, p2)]
+                    ctx.counters["positions.digits_glue_alike"] += 1
+                for a, b, c in calls:
+                    ctx.current = {"words": [a, b, c], "chipdata": spec["cfg"]}
+                    try:
+                        p.get_signature(a, b, c)
+                    except Exception as e:
+                        ctx.violation("C20/signature-error", "get_signature(%s, %s, %s) [chip data %s] raised %r" % (a, b, c, spec["cfg"], e))
             for i in range(1500):
                 model = rng.choice(KNOWN_MODELS) if rng.random() < 0.7 else other_model(rng)
                 rid = rng.choice(KNOWN_REGS.get(model, ["ffffff"])) if rng.random() < 0.7 else "%06x" % rng.randrange(1 << 24)
@@ -248,6 +279,11 @@ def gen_ud(rng):
         if n >= 2 and rng.random() < 0.5:      # the same position/signature words under different chip models
             a0, b0, c0 = sigs[0]
             sigs = [(rng.choice(KNOWN_MODELS + [other_model(rng)]), b0, c0) for _ in range(n)]
+        elif n >= 2 and rng.random() < 0.5:    # one model, positions whose digits glue to the same string
+            (n1, p1), (n2, p2) = alike_positions(rng)
+            i = rng.randrange(n - 1)
+            sigs[i] = with_position(sigs[i], n1, p1)
+            sigs[i + 1] = with_position((sigs[i][0],) + sigs[i + 1][1:], n2, p2)
         payload = struct.pack(">I", n) + b"".join(bytes.fromhex(a + b + c) for a, b, c in sigs)
         return 1, payload, {"Signature List": [sig_ref(a, b, c) for a, b, c in sigs]}, ("siglist", n)
     if r < 0.75:
@@ -266,6 +302,11 @@ def gen_ud(rng):
                 regs.append((rid, rng.choice([0, 0, 2, 3]) if shared else rng.choice([0, 1, 2, 3, 255]),
                              bytes(rng.randrange(256) for _ in range(size))))
             chips.append((model, rng.randrange(0x10000), rng.randrange(256), regs))
+        if len(chips) >= 2 and rng.random() < 0.4:
+            (n1, p1), (n2, p2) = alike_positions(rng)
+            i = rng.randrange(len(chips) - 1)
+            chips[i] = (chips[i][0], p1, n1, chips[i][3])
+            chips[i + 1] = (chips[i][0], p2, n2, chips[i + 1][3])
         lines = regdump_ref(chips)
         return 2, enc_regdump(chips), {"Register Dump": lines}, ("regdump", len(lines))
     if r < 0.83:
